@@ -686,6 +686,34 @@ def check_crafted(targets=None, extra_filter=None):
     return None
 
 
+CRAFTED_PATTERNS = [["Reports/*"], ["Docs/*.pdf"], ["*/Q1/*", "Archive/*"], ["Reports*/*.pdf"], ["*Final/final.pdf"], ["D*/Q1?/[bc].*"],
+                    ["Reports/r*", "*.txt"], ["*/*/*"], ["**/d*.pdf"], ["Reports 2024/**"], ["?eports/Drafts/*", "nope/*"], ["*draft*"],
+                    ["Drafts/*"], ["/Reports/*"], ["reports/*"]]
+
+
+def check_crafted_patterns(patterns=None):
+    """path_patterns apply to the FULL path with fnmatch semantics (a `*` spans `/`): whole-drive and per-folder filtered
+    listings over the crafted library (files at, above and below the depth of the pattern's directory part) == reference."""
+    root = crafted_tree()
+    for pats in ([patterns] if patterns else CRAFTED_PATTERNS):
+        for page, extra in ((2, {}), (5, {"extensions": [".pdf"]}), (1, {"folder_paths": ["Reports", "Docs", "Reports 2024"]})):
+            fd = dict(extra, path_patterns=pats)
+            want = sorted(reference(root, "filtered", fd))
+            c = make_client(FakeGraph(root, page))
+            try:
+                got = [rec_of(m) for m in c.list_files_filtered(mk_filter(fd))]
+            except Exception as e:  # noqa
+                got = f"{type(e).__name__}: {e}"
+            if not isinstance(got, list) or sorted(got) != want:
+                missing = [r for r in want if not isinstance(got, list) or r not in got]
+                extra_ = [r for r in got if r not in want] if isinstance(got, list) else []
+                return {"target": "sharepoint2text/sharepoint_io/client.py::SharePointRestClient.list_files_filtered",
+                        "inputs": {"library": "crafted_tree()", "filter": fd, "page_size": page},
+                        "expected": f"every file whose full path matches a pattern, exactly once ({len(want)} records)",
+                        "observed": f"{got if not isinstance(got, list) else len(got)} records; missing={missing[:4]} unexpected={extra_[:4]}"}
+    return None
+
+
 def check_known_overlap(witness):
     """Known finding C18-overlapping-targets: a requested folder together with one of its descendants is walked twice."""
     tg = (witness or {}).get("folder_paths") or ["Docs", "Docs/Q1"]
@@ -737,7 +765,7 @@ def listing_filters():
 
 
 def suite(seeds=range(6), fault_seeds=range(3), quick=False):
-    r = check_parse_assumptions() or check_misc_filter() or check_filter_boundaries() or check_target_folders() or check_crafted()
+    r = check_parse_assumptions() or check_misc_filter() or check_filter_boundaries() or check_target_folders() or check_crafted() or check_crafted_patterns()
     if r is not None:
         return r
     for seed in seeds:
@@ -835,6 +863,9 @@ def rerun(stored):
         return dict(r or {}, reproduced=r is not None)
     if "folder_paths" in inp and "library" not in inp:
         r = check_targets_once(inp["folder_paths"])
+        return dict(r or {}, reproduced=r is not None)
+    if inp.get("library") == "crafted_tree()" and "filter" in inp:
+        r = check_crafted_patterns(inp["filter"].get("path_patterns"))
         return dict(r or {}, reproduced=r is not None)
     if inp.get("library") == "crafted_tree()":
         r = check_crafted(inp["folder_paths"])
